@@ -264,6 +264,12 @@ type Op struct {
 	Sites []PatchSite
 	CopySlot []int // patch: copy descriptor slot [0] over slot [1] (resolved at execution)
 	SwapSlots []int // patch: exchange descriptor slots [0] and [1] byte for byte (resolved at execution)
+	// the backing store fails this operation's FaultAt-th mutating call (FaultShort: after writing
+	// half of it); Fault is filled in when the fault fired: "m:j" — m whole calls took effect
+	// (zero-length writes not counted, chunks of one write taken together), then j bytes of the next
+	FaultAt    int
+	FaultShort bool
+	Fault      string
 	Cli       *CliOp // C15: one siftool invocation
 	CliExists bool   // the image file existed before it
 	IO    bool // C09: the model is asked for the operation's I/O plan (`io` lines)
@@ -281,6 +287,9 @@ func (o *Op) Lines() []string {
 	ls := o.lines0()
 	if o.IO && len(ls) > 0 && isCrashOp(o.Kind) {
 		ls[0] += " io=1"
+	}
+	if o.Fault != "" && len(ls) > 0 {
+		ls[0] += " fault=" + o.Fault
 	}
 	return ls
 }
